@@ -50,7 +50,7 @@ IsTreeOp(op) == op \in {"clipperd_tree", "boolop_tree"}
 (* ---- signed comparison helpers on wide integers ---- *)
 DiffMag(a, b) == IF Sg(a) = Sg(b) THEN AbsDiff(Mag(a), Mag(b)) ELSE Add(Mag(a), Mag(b))     \* |a - b|
 Close(p, q) == Lt(DiffMag(p[1], q[1]), <<2>>) /\ Lt(DiffMag(p[2], q[2]), <<2>>)
-(* class S-C16-1: an OPEN solution path of three vertices two of which are less than 2 apart in both axes *)
+(* class S16a (known_findings.json): an OPEN solution path of three vertices two of which are less than 2 apart in both axes *)
 SmallTri(P) == Len(P) = 3 /\ (Close(P[1], P[2]) \/ Close(P[2], P[3]) \/ Close(P[1], P[3]))
 RECURSIVE DropsOnly(_, _, _, _)
 DropsOnly(A, Bq, i, j) ==       \* Bq is A with some SmallTri paths removed
